@@ -80,6 +80,8 @@ SeqOf(S) == CHOOSE s \in [1..Cardinality(S) -> S] : \A i, j \in 1..Cardinality(S
 EmitTree  == (Mode = "tree" /\ hist = <<>>) =>
                  \A n \in Nodes : PrintT(<<"CASE", ToJson([part |-> "tree", node |-> n, class |-> NodeClass[n],
                                                           declared |-> ScalarsOf(NodeClass[n]), fields |-> AllScalars])>>)
-EmitWin   == Mode = "window" => PrintT(<<"CASE", ToJson([part |-> "window", desc |-> o, b |-> b, e |-> e])>>)
+EmitWin   == Mode = "window" => PrintT(<<"CASE", ToJson([part |-> "window", desc |-> o, b |-> b, e |-> e,
+                                                          must |-> Cardinality(DrawnMust(o, b, e)),
+                                                          band |-> Cardinality(DrawnMay(o, b, e) \ DrawnMust(o, b, e))])>>)
 EmitTotal == Mode = "total"  => PrintT(<<"CASE", ToJson([part |-> "total", arch |-> a, win |-> w, b |-> WindowOf(w)[1], e |-> WindowOf(w)[2]])>>)
 =================================================================================
